@@ -344,3 +344,20 @@ Theorem Blocks_total_partial_process_line_tree : forall o st line0,
   BlocksTotal2Safe.safe (BlocksTotal2Walk.LI o) (process_line o st line0).
 Proof. exact BlocksTotal2Walk.process_line_spec. Qed.
 Print Assumptions Blocks_total_partial_process_line_tree.
+
+(* ---- totality, third round (Proofs/BlocksTotal3*.v).
+   Step 1 (Proofs/BlocksTotal3Tab.v): the walk of the second round carried through table.rs (try_opening_block,
+   try_opening_header, try_opening_row, try_inserting_table_header_paragraph) and parse_desc_list_details, so the two
+   premises of Blocks_total_partial_tree_sites are gone: no tree-lookup Panic site is reachable, for EVERY input byte
+   string and EVERY option set. *)
+From V Require Proofs.BlocksTotal3Tab.
+
+Theorem Blocks_total_partial_tree_sites_all : forall o x s,
+  In s BlocksTotal2Safe.tree_sites -> parse_blocks o x <> Panic s.
+Proof. exact BlocksTotal3Tab.parse_blocks_no_tree_panic_all. Qed.
+Print Assumptions Blocks_total_partial_tree_sites_all.
+
+Theorem Blocks_total_partial_process_line_tree_all : forall o st line0,
+  BlocksTotal2Walk.LI o st -> BlocksTotal2Safe.safe (BlocksTotal2Walk.LI o) (process_line o st line0).
+Proof. exact BlocksTotal3Tab.process_line_spec'. Qed.
+Print Assumptions Blocks_total_partial_process_line_tree_all.
